@@ -288,7 +288,15 @@ def check(run):
     run.trusted += ['Coq 8.16.1 kernel (coqc); vm_compute for the cases.v evaluation',
                     'hand-written Gallina models coq/model/C14*.v (tied to /repo only by the correspondence streams of this check)',
                     'harness stubs (SimpleNamespace/Fraction), test doubles for min/max_content_width in cvd-direct, '
-                    'document generators and the Python part of the render monitors']
+                    'document generators and the Python part of the render monitors',
+                    'translator tie of compute_variable_dimension (gen/GenPage.v, proofs/C14_gen_variable*.v): the slice '
+                    'starts after `box_a, box_b, box_c = side_boxes`; trusted: the adapters built before it are three '
+                    'distinct objects of a plain subclass of OrientedBox (py2coq checks the shape of the two statements '
+                    'and of the classes), so the loops over side_boxes are the same statements on box_a, box_b, box_c; '
+                    'reads of sugar / outer / outer_min_content_size / outer_max_content_size are calls of the regenerated '
+                    'getters (resolved by name) and `x.outer = e` is the regenerated setter body; min_content_size / '
+                    'max_content_size (properties of the subclasses calling the preferred-width code) are inputs; '
+                    'restore_box_attributes is an oracle returning None']
     run.assumptions += ['margin-box content layout is ordinary block layout (C05); the min/max-content widths of margin boxes are '
                         'inputs of the model (computed by the harness from the words in the render streams)',
                         'counter(pages) needs the relayout loop (C15): only its displayed value is monitored here',
